@@ -533,7 +533,7 @@ def run_shard(ctx):
                         continue
                     i += 1
                     r = ctx.sub_rng('c11', da[0], db[0], mclass, shape, rep)
-                    ma, mb = magnitudes(r, mclass, 3)
+                    ma, mb = magnitudes(r, mclass, 3 if rep % 2 == 0 else 1)
                     key = [da[0], db[0], mclass, shape]
                     check_pair(ctx, key, da, db, mclass, shape, ma, mb)
                     if rep == 0 and mclass == 'a<b' and shape == \
